@@ -364,10 +364,19 @@ def inline_body(crate, body, index, depth=0, force=None):
                        "inlined_call": callee.path}
         blocks.extend(new_blocks)
     if d is None:
+        if depth == 0 and _bool_plans(body.d):
+            d = copy.deepcopy(body.d)
+            thread_known_bools(d)
+            nb = Body(crate, d)
+            nb.inlined = []
+            return nb, set()
         return None, set()
     if depth == 0:
+        _expand_combinators(crate, d)
         _inline_closure_calls(crate, d, index, used)
     thread_known_variants(crate, d)
+    if depth == 0:
+        thread_known_bools(d)
     nb = Body(crate, d)
     nb.inlined = sorted(used)
     return nb, used
@@ -502,6 +511,181 @@ def _inline_closure_calls(crate, d, index, used):
             changed = True
         if not changed:
             break
+
+
+# --------------------------------------------------------------------- combinators on an inlined helper's result
+# `helper(..).map(Wrap)` / `.map_err(|e| ..)`: after the helper was expanded its result is assigned in the caller, and
+# the combinator is the `match` it abbreviates.  Written out here (on the copy) so that the rules see the same shape as
+# for the unfactored code; only results of expanded helpers are touched - the combinators of the code as written stay.
+COMBINATORS = {
+    # name -> (adt, variant the function is applied to, payload index in the adt's generic arguments, wraps the result again)
+    ("std::result::Result", "map"): ("Ok", 0, True),
+    ("std::result::Result", "map_err"): ("Err", 1, True),
+    ("std::result::Result", "and_then"): ("Ok", 0, False),
+    ("std::result::Result", "or_else"): ("Err", 1, False),
+    ("std::option::Option", "map"): ("Some", 0, True),
+}
+GOTO = {"exp": False, "macros": [], "false_edge": False, "false_unwind": False}
+
+
+def _type_index(crate, entry):
+    cache = getattr(crate, "_type_by_s", None)
+    if cache is None:
+        cache = {}
+        for i, x in enumerate(crate.types):
+            cache.setdefault((x["k"], x["s"]), i)
+        crate._type_by_s = cache
+    hit = cache.get((entry["k"], entry["s"]))
+    if hit is not None:
+        return hit
+    crate.types.append(entry)
+    cache[(entry["k"], entry["s"])] = len(crate.types) - 1
+    return len(crate.types) - 1
+
+
+def _expand_combinators(crate, d, any_receiver=False):
+    blocks = d["blocks"]
+    from_helper = set()
+    for blk in blocks:
+        if blk.get("inlined_from"):
+            for st in blk["stmts"]:
+                if st["k"] == "assign" and not st["place"]["p"]:
+                    from_helper.add(st["place"]["l"])
+    changed = False
+    for bi in range(len(blocks)):
+        blk = blocks[bi]
+        if blk.get("cleanup") or (blk.get("inlined_from") and not any_receiver):
+            continue
+        t = blk["term"]
+        if t["k"] != "call" or t.get("target") is None or len(t["args"]) != 2 or t["dest"]["p"]:
+            continue
+        fn = _fn_of(t)
+        if fn is None:
+            continue
+        r, f = t["args"]
+        if r["k"] != "move" or r["place"]["p"] or (r["place"]["l"] not in from_helper and not any_receiver):
+            continue
+        rty = crate.types[r["place"]["ty"]]
+        if rty["k"] != "adt":
+            continue
+        spec = COMBINATORS.get((rty["path"], fn.get("name")))
+        if spec is None or not (fn.get("path") or "").startswith(rty["path"]):
+            continue
+        variant, pidx, wraps = spec
+        adt = crate.adts.get(rty["path"])
+        dty = crate.types[t["dest"]["ty"]]
+        if not adt or dty["k"] != "adt" or dty["path"] != rty["path"]:
+            continue
+        targs = [a for a in rty["args"] if isinstance(a, int)]
+        dargs = [a for a in dty["args"] if isinstance(a, int)]
+        if len(targs) <= pidx or len(dargs) <= pidx:
+            continue
+        if f["k"] == "const" and "fn" not in f:
+            continue
+        if f["k"] != "const" and f["place"]["p"]:
+            continue
+        at = t.get("at", "")
+        isize = _type_index(crate, {"s": "isize", "k": "prim"})
+        x_ty = targs[pidx]
+        y_ty = dargs[pidx] if wraps else t["dest"]["ty"]
+        L = d["locals"]
+
+        def new_local(ty):
+            L.append({"ty": ty, "name": None, "mut": True, "user": False, "synthetic": "combinator"})
+            return len(L) - 1
+        dl = new_local(isize)
+        xl = new_local(x_ty)
+        yl = new_local(y_ty)
+        rl = r["place"]["l"]
+        dest = t["dest"]
+        target = t["target"]
+        vinfo = {v["name"]: v for v in adt["variants"]}
+        b_apply = len(blocks)
+        b_wrap = b_apply + 1
+        b_pass = b_apply + 2
+        # the applied arm
+        stm = [{"k": "assign", "place": {"l": xl, "p": [], "ty": x_ty},
+                "rv": {"k": "use", "op": {"k": "move", "place": {"l": rl, "p": [{"k": "downcast", "variant": variant, "idx": vinfo[variant]["idx"]},
+                                                                              {"k": "field", "i": 0, "name": "0", "variant": variant, "ty": x_ty}], "ty": x_ty}}}, "at": at}]
+        if f["k"] == "const":
+            call = {"at": at, "exp": False, "k": "call", "func": copy.deepcopy(f), "args": [{"k": "move", "place": {"l": xl, "p": [], "ty": x_ty}}],
+                    "dest": {"l": yl, "p": [], "ty": y_ty}, "target": b_wrap, "devirtualised": True}
+        else:
+            tup_ty = _type_index(crate, {"s": "(%s,)" % crate.types[x_ty]["s"], "k": "tuple", "ts": [x_ty]})
+            tl = new_local(tup_ty)
+            stm.append({"k": "assign", "place": {"l": tl, "p": [], "ty": tup_ty},
+                        "rv": {"k": "agg", "ak": "tuple", "ops": [{"k": "move", "place": {"l": xl, "p": [], "ty": x_ty}}]}, "at": at})
+            fty = crate.types[f["place"]["ty"]]["s"]
+            full = "<%s as std::ops::FnOnce<(%s,)>>::call_once" % (fty, crate.types[x_ty]["s"])
+            call = {"at": at, "exp": False, "k": "call",
+                    "func": {"k": "const", "ty": None, "s": full, "fn": {"path": "std::ops::FnOnce::call_once", "full": full, "krate": "core", "gargs": [f["place"]["ty"], tup_ty],
+                                                                        "name": "call_once", "trait": "std::ops::FnOnce", "self_ty": f["place"]["ty"]}},
+                    "args": [copy.deepcopy(f), {"k": "move", "place": {"l": tl, "p": [], "ty": tup_ty}}],
+                    "dest": {"l": yl, "p": [], "ty": y_ty}, "target": b_wrap}
+        blocks.append({"stmts": stm, "term": call, "synthetic": "combinator", "cleanup": False})
+        if wraps:
+            wst = [{"k": "assign", "place": copy.deepcopy(dest),
+                    "rv": {"k": "agg", "ak": "adt", "path": rty["path"], "variant": variant, "vidx": vinfo[variant]["idx"], "fields": ["0"], "gargs": list(dargs),
+                           "ops": [{"k": "move", "place": {"l": yl, "p": [], "ty": y_ty}}]}, "at": at}]
+        else:
+            wst = [{"k": "assign", "place": copy.deepcopy(dest), "rv": {"k": "use", "op": {"k": "move", "place": {"l": yl, "p": [], "ty": y_ty}}}, "at": at}]
+        blocks.append({"stmts": wst, "term": dict(GOTO, k="goto", target=target, at=at), "synthetic": "combinator", "cleanup": False})
+        # the other arm: handed on unchanged
+        others = [v for v in adt["variants"] if v["name"] != variant]
+        if len(others) != 1:
+            del blocks[b_apply:]
+            continue
+        ov = others[0]
+        pst = []
+        ops = []
+        if ov["fields"]:
+            o_ty = targs[1 - pidx] if len(targs) > 1 else x_ty
+            el = new_local(o_ty)
+            pst.append({"k": "assign", "place": {"l": el, "p": [], "ty": o_ty},
+                        "rv": {"k": "use", "op": {"k": "move", "place": {"l": rl, "p": [{"k": "downcast", "variant": ov["name"], "idx": ov["idx"]},
+                                                                                      {"k": "field", "i": 0, "name": "0", "variant": ov["name"], "ty": o_ty}], "ty": o_ty}}}, "at": at})
+            ops = [{"k": "move", "place": {"l": el, "p": [], "ty": o_ty}}]
+        pst.append({"k": "assign", "place": copy.deepcopy(dest),
+                    "rv": {"k": "agg", "ak": "adt", "path": rty["path"], "variant": ov["name"], "vidx": ov["idx"], "fields": list(ov["fields"]), "gargs": list(dargs), "ops": ops}, "at": at})
+        blocks.append({"stmts": pst, "term": dict(GOTO, k="goto", target=target, at=at), "synthetic": "combinator", "cleanup": False})
+        # the match itself
+        blk["stmts"].append({"k": "assign", "place": {"l": dl, "p": [], "ty": isize}, "rv": {"k": "discr", "place": {"l": rl, "p": [], "ty": r["place"]["ty"]}}, "at": at})
+        blk["term"] = {"at": at, "exp": False, "k": "switch", "discr": {"k": "move", "place": {"l": dl, "p": [], "ty": isize}}, "discr_ty": isize,
+                       "targets": [[vinfo[variant]["discr"], b_apply], [ov["discr"], b_pass]], "otherwise": b_pass, "expanded_combinator": fn.get("path")}
+        changed = True
+    if changed:
+        _ctor_calls_to_aggregates(crate, d)
+    return changed
+
+
+def _ctor_calls_to_aggregates(crate, d):
+    """`Wrap(x)` called as the function that a tuple variant / tuple struct is: the aggregate it builds"""
+    for blk in d["blocks"]:
+        t = blk["term"]
+        if t["k"] != "call" or not t.get("devirtualised") or t.get("target") is None:
+            continue
+        fn = _fn_of(t)
+        if fn is None:
+            continue
+        dty = crate.types[t["dest"]["ty"]] if t["dest"].get("ty") is not None else None
+        if dty is None or dty["k"] != "adt":
+            continue
+        adt = crate.adts.get(dty["path"])
+        if not adt:
+            continue
+        name = fn.get("name")
+        hit = [v for v in adt["variants"] if v["name"] == name and len(v["fields"]) == len(t["args"])]
+        # (functions are lower-case by convention and by lint: a capitalised callee that returns the type and is named as
+        # one of its tuple variants is that variant's constructor)
+        if len(hit) != 1 or not name[:1].isupper():
+            continue
+        v = hit[0]
+        blk["stmts"].append({"k": "assign", "place": copy.deepcopy(t["dest"]),
+                             "rv": {"k": "agg", "ak": "adt", "path": dty["path"], "variant": v["name"] if adt.get("kind") == "enum" else None, "vidx": v["idx"],
+                                    "fields": list(v["fields"]), "gargs": [a for a in dty.get("args", []) if isinstance(a, int)], "ops": copy.deepcopy(t["args"])},
+                             "at": t.get("at", "")})
+        blk["term"] = dict(GOTO, k="goto", target=t["target"], at=t.get("at", ""))
+
 
 
 # ------------------------------------------------------------------------- known-variant threading
@@ -738,6 +922,74 @@ def thread_known_variants(crate, d, rounds=12):
     return d
 
 
+# ------------------------------------------------------------------------------ known bool at a join
+def _bool_plans(d):
+    """`matches!(x, P)` / `let stop = if .. { true } else { false }` followed by `if`: the arms that have just assigned the
+    constant can go straight to where the `if` sends them: [(predecessor, switch block, target)]"""
+    blocks = d["blocks"]
+    pr, reach = _preds(blocks)
+    plans = []
+    for s_ in sorted(reach):
+        blk = blocks[s_]
+        t = blk["term"]
+        if t["k"] != "switch" or blk.get("cleanup"):
+            continue
+        dop = t["discr"]
+        if dop["k"] not in ("copy", "move") or dop["place"]["p"]:
+            continue
+        b = dop["place"]["l"]
+        if any(st["k"] == "assign" and st["place"]["l"] == b for st in blk["stmts"]):
+            continue
+        if len(pr[s_]) < 2:
+            continue
+        for p in pr[s_]:
+            pb = blocks[p]
+            if pb["term"]["k"] != "goto" or pb.get("cleanup") or p == s_:
+                continue
+            val = None
+            for st in reversed(pb["stmts"]):
+                if st["k"] == "assign" and st["place"]["l"] == b:
+                    rv = st["rv"]
+                    if not st["place"]["p"] and rv["k"] == "use" and rv["op"]["k"] == "const" and isinstance(rv["op"].get("bool"), bool):
+                        val = rv["op"]["bool"]
+                    break
+            if val is None:
+                continue
+            tgt = None
+            for v_, tb in t["targets"]:
+                if v_ == (1 if val else 0):
+                    tgt = tb
+            if tgt is None:
+                tgt = t["otherwise"]
+            plans.append((p, s_, tgt, val))
+    return plans
+
+
+def thread_known_bools(d, rounds=6):
+    blocks = d["blocks"]
+    any_change = False
+    for _ in range(rounds):
+        plans = _bool_plans(d)
+        if not plans:
+            break
+        for p, s_, tgt, val in plans:
+            cb = copy.deepcopy(blocks[s_])
+            cb["threaded_from"] = s_
+            cb["term"] = {"k": "goto", "target": tgt, "at": cb["term"].get("at", ""), "exp": False, "macros": [], "false_edge": False,
+                          "false_unwind": False, "resolved_switch": val}
+            blocks.append(cb)
+            blocks[p]["term"]["target"] = len(blocks) - 1
+        any_change = True
+    if any_change:
+        _pr, reach = _preds(blocks)
+        for i, blk in enumerate(blocks):
+            if i not in reach and not blk.get("cleanup"):
+                blk["stmts"] = []
+                blk["term"] = {"k": "unreachable", "at": blk["term"].get("at", ""), "exp": False, "macros": []}
+                blk["dead_after_threading"] = True
+    return any_change
+
+
 _INDEX = {}
 
 
@@ -774,3 +1026,23 @@ def expand_local_helpers(crate, body, keep=()):
         return True
     nb, _used = inline_body(crate, body, idx, 0, helper)
     return nb if nb is not None else body
+
+
+def combinators_expanded(crate, body):
+    """body with every `.map(f)` / `.map_err(f)` / `.and_then(f)` / `.or_else(f)` on a Result (and Option::map) written out
+    as the match it abbreviates, the closures given to them standing in the arms (for rules that read one small function's
+    arms and would otherwise have to know each way of spelling them)"""
+    idx = _INDEX.get(id(crate))
+    if idx is None:
+        idx = {b.path: b for b in crate.bodies}
+        _INDEX[id(crate)] = idx
+    d = copy.deepcopy(body.d)
+    used = set()
+    if not _expand_combinators(crate, d, any_receiver=True):
+        return body
+    _inline_closure_calls(crate, d, idx, used)
+    thread_known_variants(crate, d)
+    thread_known_bools(d)
+    nb = Body(crate, d)
+    nb.inlined = sorted(used | set(getattr(body, "inlined", []) or []))
+    return nb
